@@ -5,12 +5,17 @@ V = os.path.dirname(os.path.dirname(os.path.abspath(__file__)))
 TB_PURE = ("Trusted: Lean 4.33.0 kernel; axioms propext, Classical.choice, Quot.sound; the hand-written model "
   "(lean/PubgrubModel) is tied to /repo by the differential run recorded in the evidence (exhaustive small scope by "
   "order-isomorphism for the pure layers); std binary_search_by / partition_point / Hash by their documented behaviour; "
-  "Lean compiler for the driver; the harness's canonical printing.")
+  "Lean compiler for the driver; the harness's canonical printing. The tie also covers: every returned object re-checked as an object "
+  "(representation independence, two-step operation chains), structured pairs of long ranges (8..300 segments), and - when /repo/src differs "
+  "from source_baseline.json - the thorough scopes plus inputs around every integer constant new in a changed file (DESIGN.md 4.8).")
 TB_SOLVER = ("Trusted: Lean 4.33.0 kernel; axioms propext, Classical.choice, Quot.sound; the hand-written coroutine model of "
   "resolve (lean/PubgrubModel/{Incompat,PartialSolution,Core,Solver}.lean) is tied to /repo by exact mirroring of recorded runs "
   "(every provider request, every partial-solution snapshot, the final store, the result) on sampled tiny registries incl. cycles, "
   "self-dependencies, empty sets, unknown packages, unavailable versions, 6 strategies; u32 counters as Nat; IndexMap / PriorityQueue / "
-  "FxHashMap as association lists (queue tie-breaking is an input of the model, hash iteration order canonicalised); fuel.")
+  "FxHashMap as association lists (queue tie-breaking is an input of the model, hash iteration order canonicalised); fuel. "
+  "The mirror runs over Range<u32>, an 8-bit set, a 2-element-universe set and a set with a non-injective Display, against release and "
+  "(quick: light) debug builds; deep / wide / late-conflict / scale runs reach decision levels and sizes around 2^8 and 2^16; when /repo/src "
+  "differs from source_baseline.json the quick tier adds the thorough scopes and inputs around every integer constant new in a changed file (DESIGN.md 4.8).")
 T = {
  "C01": None, "C04": None, "C05": None, "C14": None, "C07": None, "C08": None, "C09": None,
  "C17": None, "C18": None, "C19": None, "C20": None,
